@@ -235,6 +235,27 @@ theorem spawn_children_distinct (o : SeqObj) (n m : Nat) :
     have := List.append_cancel_left h
     simp at this; omega
 
+/-- **vi_key_schedule**: in the JAX VI driver the key after `i` updates and the sampling key of iteration `i` are
+    functions of the initial key and `i` only — not of the sample modes chosen in earlier iterations -/
+theorem vi_key_schedule {Key Mode} (split : Key → Key × Key) (k0 : Key) (modes : List Mode) :
+    (runKeys split k0 modes).1 = keyAt split k0 modes.length ∧
+    (runKeys split k0 modes).2 = (List.range modes.length).map (fun i => (split (keyAt split k0 i)).2) := by
+  have key : ∀ (ms : List Mode) (k : Key) (j : Nat), k = keyAt split k0 j →
+      (runKeys split k ms).1 = keyAt split k0 (j + ms.length) ∧
+      (runKeys split k ms).2 = (List.range' j ms.length).map (fun i => (split (keyAt split k0 i)).2) := by
+    intro ms
+    induction ms with
+    | nil => intro k j h; simp [runKeys, h]
+    | cons m ms ih =>
+      intro k j h
+      have := ih (split k).1 (j + 1) (by rw [h]; rfl)
+      simp only [runKeys, updateKey, List.length_cons, List.range'_succ, List.map_cons]
+      refine ⟨?_, ?_⟩
+      · rw [this.1]; congr 1; omega
+      · rw [this.2, h]
+  have := key modes k0 0 rfl
+  simpa [List.range_eq_range'] using this
+
 /-! ### non-vacuity -/
 
 -- with Context(7): draw; with Context(8): draw; raise  — stack restored, exception propagates, tokens as expected
